@@ -35,11 +35,12 @@ def _counting(simname):
 
     if simname not in _COUNTING:
         base = P.sim_class(simname)
-        counter = {"entered": 0, "completed": 0}
+        counter = {"entered": 0, "completed": 0, "last": None}
 
         def wrap(fn):
             def step(state, instruction, shots):
                 counter["entered"] += 1
+                counter["last"] = type(instruction).__name__
                 out = fn(state, instruction, shots)
                 counter["completed"] += 1
                 return out
@@ -91,13 +92,14 @@ def execute_case(case, seed):
 
     sub, counter = _counting(case["sim"])
     counter["entered"] = counter["completed"] = 0
+    counter["last"] = None
     route = case.get("route", "on_modes")
     out = {"stage": None, "exc": None, "exc_name": None, "piquasso": False, "message": "", "result": None}
 
     def fail(stage, e):
         out.update(
             stage=stage, exc=e, exc_name=type(e).__name__, piquasso=isinstance(e, PiquassoException),
-            message=str(e)[:300], entered=counter["entered"], completed=counter["completed"],
+            message=str(e)[:300], entered=counter["entered"], completed=counter["completed"], last=counter["last"],
         )
         return out
 
@@ -241,7 +243,7 @@ def _accept_signature(verdict, case, o):
         sig["connector"] = case["connector"]
     if verdict != "documented_instruction_refused":
         sig["exc"] = o["exc_name"]
-    if verdict == "crash":
+    if verdict == "crash" and case.get("connector") in (None, "numpy"):
         sig["input_class"] = "cutoff<=2" if case["cutoff"] <= 2 else "cutoff>=3"
     if case.get("variant"):
         sig["variant"] = case["variant"]
@@ -252,7 +254,7 @@ def _accept_signature(verdict, case, o):
     return sig
 
 
-def _check_accept(ctx, rep, case):
+def _check_accept(ctx, rep, case, attribute=False):
     o = execute_case(case, ctx.seed)
     ctx.count("traces")
     ctx.count("accept_executions")
@@ -260,6 +262,20 @@ def _check_accept(ctx, rep, case):
     v = _accept_verdict(o)
     if v is None:
         return o
+    if case.get("connector") not in (None, "numpy") and o["exc_name"] in ("NotImplementedError", "NotImplementedCalculation"):
+        # TensorflowConnector documents "certain instructions", JaxConnector is "experimental": an explicit
+        # not-implemented refusal with such a connector is an unsupported cell, not a violation
+        ctx.count("connector_unsupported_cells")
+        ctx.count("connector_unsupported/%s/%s/%s" % (case["sim"], case["connector"], case.get("instruction")))
+        return o
+    if attribute:
+        # multi-instruction programs: name the instruction at which the run stopped -- the step that was
+        # entered and did not complete, else (raised between steps) the next instruction of the program
+        if o.get("entered", 0) > o.get("completed", 0) and o.get("last"):
+            case = dict(case, instruction=o["last"])
+        else:
+            k = min(o.get("completed", 0), len(case["program"]) - 1)
+            case = dict(case, instruction=case["program"][k]["cls"])
     sig = _accept_signature(v, case, o)
     msg = "%s connector=%s d=%d cutoff=%d documented instruction %s: expected no exception, got %s\nprogram=%s shots=%r" % (
         case["sim"], case.get("connector") or "numpy", case["d"], case["cutoff"], case.get("instruction") or "(after %s)" % case.get("after"), _describe(o),
@@ -275,8 +291,9 @@ def _check_accept(ctx, rep, case):
 
 def _tier(ctx):
     if ctx.tier == "quick":
-        return {"accept_d": 4, "accept_c": 5, "adapt_d": (2, 3), "adapt_c": 4}
-    return {"accept_d": 4, "accept_c": 5, "adapt_d": (2, 3, 4), "adapt_c": 5}
+        # small on purpose (<= ~4 CPU-minutes): reject side on d = 2 only with 2 foreign classes per kind
+        return {"reject_d": (2,), "foreign_per_kind": 2, "accept_d": 3, "accept_c": 4, "adapt_d": (2, 3), "adapt_c": 3}
+    return {"reject_d": (1, 2, 3), "foreign_per_kind": None, "accept_d": 4, "accept_c": 5, "adapt_d": (2, 3, 4), "adapt_c": 5}
 
 
 def _items(ctx):
@@ -286,7 +303,7 @@ def _items(ctx):
     t = _tier(ctx)
     items = []
     for sim in P.SIMULATORS:
-        for d in (1, 2, 3):
+        for d in t["reject_d"]:
             alpha = R.alphabet(sim, d, REJECT_CUTOFF, ctx.seed, ctx.tier)
             body = R.body_alphabet(alpha)
             npref = len(R.prefixes(sim, alpha, d, REJECT_CUTOFF))
@@ -298,7 +315,7 @@ def _items(ctx):
             if ctx.tier == "thorough" and d >= 2:
                 for first in range(len(R.representatives(sim, body))):
                     items.append(("reject3", sim, d, first))
-    for d in (1, 2, 3):
+    for d in t["reject_d"]:
         items.append(("construct", d))
     for sim in P.SIMULATORS:
         for d in range(1, t["accept_d"] + 1):
@@ -324,7 +341,7 @@ def _ordered(items):
     for want in (("construct",), ("accept", "PureFockSimulator"), ("adaptive", "PureFockSimulator"), ("reject", "PassiveSimulator"),
                  ("accept", "GaussianSimulator"), ("reject", "GaussianSimulator")):
         for it in items:
-            if it[: len(want)] == want and it not in seen and (it[0] != "reject" or (it[2] == 3 and it[3] == 0 and it[4] == 3)) \
+            if it[: len(want)] == want and it not in seen and (it[0] != "reject" or (it[2] in (2, 3) and it[3] == 0 and it[4] == 3)) \
                     and (it[0] not in ("accept", "adaptive") or (it[2], it[3]) == (2, 3)):
                 head.append(it)
                 seen.add(it)
@@ -378,6 +395,8 @@ def run(ctx, builddir):
         "non-trivial when the program reaches the simulator (mutations) or executes >= 1 simulation step (accept)"
     )
     ctx.assume("'before any evolution' is decided by COMPLETED simulation steps (wrapper around every _instruction_map entry); an exception raised inside the first entered step counts as rejected (counter rejected_inside_first_step)")
+    if ctx.tier == "quick":
+        ctx.assume("quick tier bounds (kept small, ~4 CPU-minutes): reject side on d = 2 only, body depth <= 2 after the canonical prefix and <= 1 after the other prefixes, one mode placement per class, 2 foreign instruction classes per kind; accept side d <= 3, cutoff <= 4; adaptive programs d in {2, 3}, cutoff <= 3.  The thorough tier is a superset: d in {1, 2, 3}, two placements, every foreign class, depth-3 bodies over the representative alphabet, accept d <= 4 / cutoff <= 5, TF/JAX connectors, adaptive d <= 4 / cutoff <= 5")
     ctx.assume("shots mutations are {0, -1, 1.5, '2'}; True is an int in Python and np.int64 is refused by the library: neither is claimed by the statement")
     ctx.assume("documented-error table: mc/c13_documented_errors.py (basis raises_clause / must_sentence / error_message kept apart in the rule name)")
     ctx.assume("accept side uses default/valid parameters only (HomodyneMeasurement phi=0 on PureFockSimulator, Attenuator mean_thermal_excitation=0 on Fock simulators, consecutive ascending modes on fermionic.PureFockSimulator): restrictions announced by the library through NotImplementedCalculation / InvalidParameter texts are not counted as refusals")
@@ -444,6 +463,14 @@ def _reject_bases(ctx, rep, sim, d, cutoff, alpha, bases):
     from mc import c13_reject as R
 
     foreign = R.foreign_specs(sim, d, cutoff, ctx.seed)
+    per_kind = _tier(ctx)["foreign_per_kind"]
+    if per_kind:
+        kept, n = [], {}
+        for f in foreign:  # sorted by class name: the first `per_kind` classes of every kind
+            n[f["kind"]] = n.get(f["kind"], 0) + 1
+            if n[f["kind"]] <= per_kind:
+                kept.append(f)
+        foreign = kept
     documented = set(P.documented_classes(sim))
     for base in bases:
         specs = [R._spec(t) for t in base]
@@ -461,9 +488,10 @@ def _reject_bases(ctx, rep, sim, d, cutoff, alpha, bases):
                 continue
             if all_documented:
                 # a structurally valid program made of documented instructions only must execute.
-                # Attribution: refused before any step -> the up-front validation; else the crashing /
-                # refusing instruction when the program has a single non-preparation, else the
-                # instruction that completed just before.
+                # Attribution (signature key "instruction"): refused before any step -> the up-front
+                # validation ("stage"); else the crashing / refusing instruction when the program has a
+                # single non-preparation, else the instruction that completed just before (in a
+                # sequence-dependent failure that is the one that left the state the next step chokes on).
                 verdict = _accept_verdict(o)
                 k = min(o["completed"], len(specs) - 1)
                 nonprep = [t for t in base if t["kind"] != "prep"]
@@ -473,7 +501,7 @@ def _reject_bases(ctx, rep, sim, d, cutoff, alpha, bases):
                 elif len(nonprep) <= 1 or k == 0:
                     acase["instruction"] = specs[k]["cls"]
                 else:
-                    acase["after"] = specs[k - 1]["cls"]
+                    acase["instruction"] = specs[k - 1]["cls"]
                 sig = _accept_signature(verdict, acase, o)
                 rep.report(sig, acase, "%s d=%d: valid base program of documented instructions did not execute: %s\nprogram=%s" % (sim, d, _describe(o), [(s["cls"], s["modes"]) for s in specs]), _accept_verdict, verdict)
             else:
@@ -629,6 +657,7 @@ def _adaptive_programs(sim, d, c, seed):
                 followers.append(("squeeze", [{"cls": "Squeezing", "modes": [r0], "kw": sc["Squeezing"]}]))
                 followers.append(("displace", [{"cls": "Displacement", "modes": [r0], "kw": sc["Displacement"]}]))
                 followers.append(("kerr", [{"cls": "Kerr", "modes": [r0], "kw": sc["Kerr"]}]))
+                followers.append(("snap", [{"cls": "SNAP", "modes": [r0], "kw": {"theta": {"$": "snap", "k": c}}}]))
                 if len(rest) >= 2:
                     followers.append(("sq2", [{"cls": "Squeezing2", "modes": [rest[0], rest[-1]], "kw": sc["Squeezing2"]}]))
             for fname, gates in followers:
@@ -660,7 +689,7 @@ def _work_adaptive(ctx, rep, item):
     for prog, tag in _adaptive_programs(sim, d, c, ctx.seed):
         case = {"kind": "accept", "sim": sim, "d": d, "cutoff": c, "connector": "numpy", "instruction": "ParticleNumberMeasurement",
                 "program": prog, "shots": None, "init": None, "route": "on_modes", "tag": tag, "variant": "adaptive_shots_none"}
-        o = _check_accept(ctx, rep, case)
+        o = _check_accept(ctx, rep, case, attribute=True)
         ctx.count("adaptive_programs")
         nprog += 1
         if o["stage"] == "done":
